@@ -14,6 +14,7 @@ from ..common import Check
 from . import c01
 
 LEVEL = "exploration"
+RULE = ('cases = (codemod, vendored seed, Variants.tla feature vector) programs plus ProgramSpace run vectors; non-trivial when the codemod rewrote the file; distinct = distinct (codemod, seed, vector) / run-vector keys')
 CLAUSE = "FileEnd:rewrite-introduced-an-unresolved-name"
 
 
